@@ -8,15 +8,31 @@
 
 #include "awkward/kernels.h"
 
+#include <cmath>
+
+// NaN sorts first in both directions, as in awkward_argsort.cpp (the stable argsort).
+// (Same definitions as in awkward_quick_sort.cpp: the two must stay identical.)
 template <typename T>
 bool order_ascending(T left, T right)
 {
+  if (std::isnan(static_cast<double>(left))) {
+    return true;
+  }
+  if (std::isnan(static_cast<double>(right))) {
+    return false;
+  }
   return left <= right;
 }
 
 template <typename T>
 bool order_descending(T left, T right)
 {
+  if (std::isnan(static_cast<double>(left))) {
+    return true;
+  }
+  if (std::isnan(static_cast<double>(right))) {
+    return false;
+  }
   return left >= right;
 }
 
